@@ -1410,6 +1410,7 @@ func (w *envelopingWriter) Write(data []byte) (n int, err error) {
 		}
 		if w.writingEnvelope {
 			if err := w.handleEnvelopeWritten(); err != nil {
+				w.err = err // the stream cannot be resumed after a bad envelope
 				return written, err
 			}
 			continue
@@ -1417,6 +1418,7 @@ func (w *envelopingWriter) Write(data []byte) (n int, err error) {
 
 		if w.currentIsTrailer {
 			if err := w.handleTrailer(); err != nil {
+				w.err = err
 				return written, err
 			}
 			if len(data) == 0 {
@@ -1596,6 +1598,7 @@ func (w *envelopingWriter) handleTrailer() error {
 		uncompressed := w.rw.op.bufferPool.Get()
 		defer w.rw.op.bufferPool.Put(uncompressed)
 		if err := w.rw.op.server.respCompression.decompress(uncompressed, data); err != nil {
+			w.rw.reportError(err)
 			return err
 		}
 		data = uncompressed
